@@ -14,7 +14,10 @@ import (
 type Value interface{}
 
 type StructV struct{ F []Value }
-type ArrayV struct{ E []Value }
+type ArrayV struct {
+	E []Value
+	T types.Type // element type (needed only for reads from empty arrays)
+}
 
 // BigArrV is an SMT-array backed Go array/backing store whose element type
 // flattens into fixed-width leaves (one SMT array per leaf).
@@ -360,7 +363,7 @@ func zeroValue(t types.Type) Value {
 				es[i] = z
 			}
 		}
-		return &ArrayV{E: es}
+		return &ArrayV{E: es, T: u.Elem()}
 	case *types.Pointer:
 		return &PtrV{A: []PtrAlt{{G: True()}}}
 	case *types.Slice:
@@ -498,7 +501,7 @@ func mergeV(c *Term, a, b Value) Value {
 				out[i] = mergeV(c, x.E[i], y.E[i])
 			}
 		}
-		return &ArrayV{E: out}
+		return &ArrayV{E: out, T: x.T}
 	case *BigArrV:
 		y := b.(*BigArrV)
 		nb := &BigArrV{N: Ite(c, x.N, y.N), Elem: x.Elem, Leaves: make([]*Term, len(x.Leaves))}
@@ -883,9 +886,13 @@ func readPath(root Value, path []Step) Value {
 		case *ArrayV:
 			if k, ok := s.Idx.ConstInt(); ok {
 				if k < 0 || k >= len(a.E) {
-					// out of range under an infeasible guard: return zero-like element
+					// out of range: only under an infeasible guard (bounds obligations precede)
 					if len(a.E) == 0 {
-						panic(unsupported("read from empty array"))
+						if a.T == nil {
+							panic(unsupported("read from empty array"))
+						}
+						v = zeroValue(a.T)
+						continue
 					}
 					k = 0
 				}
@@ -904,7 +911,10 @@ func readPath(root Value, path []Step) Value {
 				}
 			}
 			if acc == nil {
-				panic(unsupported("symbolic read from empty array"))
+				if a.T == nil {
+					panic(unsupported("symbolic read from empty array"))
+				}
+				return readPath(zeroValue(a.T), rest)
 			}
 			return acc
 		case *BigArrV:
@@ -938,12 +948,12 @@ func writePath(root Value, path []Step, nv Value) Value {
 				return root // infeasible (bounds obligation already emitted)
 			}
 			out[k] = writePath(a.E[k], path[1:], nv)
-			return &ArrayV{E: out}
+			return &ArrayV{E: out, T: a.T}
 		}
 		for k := range out {
 			out[k] = mergeV(Eq(s.Idx, BVu(uint64(k), 64)), writePath(a.E[k], path[1:], nv), a.E[k])
 		}
-		return &ArrayV{E: out}
+		return &ArrayV{E: out, T: a.T}
 	case *BigArrV:
 		if len(path) == 1 {
 			return a.set(s.Idx, nv)
